@@ -384,7 +384,10 @@ func mergeRoots(
 
 			newTree, err := tree.Clone(ctx)
 			if err != nil {
-				if cfg.LogFunc != nil && skipUnreadable {
+				if !isNoSuchKey(err) || !skipUnreadable {
+					return nil, nil, 0, err
+				}
+				if cfg.LogFunc != nil {
 					cfg.LogFunc(fmt.Sprintf("skipping merge un-cloneable tree %v: %v", key, err))
 				}
 				continue
@@ -394,7 +397,10 @@ func mergeRoots(
 				return nil, nil, 0, err
 			}
 			if err != nil {
-				if cfg.LogFunc != nil && skipUnreadable {
+				if !isNoSuchKey(err) || !skipUnreadable {
+					return nil, nil, 0, err
+				}
+				if cfg.LogFunc != nil {
 					cfg.LogFunc(fmt.Sprintf("skipping merge un-cloneable tree %v: %v", key, err))
 				}
 				continue
@@ -421,6 +427,11 @@ func mergeRoots(
 	}
 
 	return tree, mergedRoots, unmergedRoots, nil
+}
+
+func isNoSuchKey(err error) bool {
+	var ae awserr.Error
+	return errors.As(err, &ae) && ae.Code() == s3.ErrCodeNoSuchKey
 }
 
 func loadRootFromAny(ctx context.Context, persist []mast.Persist, key string) (*crdt.Root, []byte, error) {
